@@ -1,18 +1,83 @@
 (** C01 — property theorems only (proved in DD/Canon*.v). *)
 From Coq Require Import List NArith.
-From OxiVerif Require Import DD.Table DD.TableExtra DD.TableProofs DD.Canon.
+From OxiVerif Require Import DD.Table DD.TableExtra DD.TableProofs
+  DD.Canon DD.CanonBcdd DD.CanonZbdd DD.CanonAll.
+
+(* all kinds: two handles hold the same edge iff they mean the same function *)
+Theorem C01_canon_handles : forall s, WF s /\ terms_kind s ->
+  forall h1 h2, In h1 (s_handles s) -> In h2 (s_handles s) ->
+  (snd h1 = snd h2 <->
+   forall c, (forall l, c l < arity (s_kind s)) ->
+     sem_edge s (snd h1) c = sem_edge s (snd h2) c).
+Proof. exact canon_handles. Qed.
+Print Assumptions C01_canon_handles.
+
+(* all kinds: the same for arbitrary existing edges *)
+Theorem C01_canon_edges : forall s, WF s /\ terms_kind s ->
+  forall e1 e2, ref_ok s (eref e1) -> ref_ok s (eref e2) ->
+  (s_kind s <> KBcdd -> etag e1 = false /\ etag e2 = false) ->
+  (e1 = e2 <->
+   forall c, (forall l, c l < arity (s_kind s)) -> sem_edge s e1 c = sem_edge s e2 c).
+Proof. exact canon_edges. Qed.
+Print Assumptions C01_canon_edges.
 
 (* k-ary kinds (BDD, MTBDD, TDD): references with equal meaning are equal *)
-Theorem C01_canon_kary : forall s, WF s -> kary (s_kind s) ->
+Theorem C01_canon_kary : forall s, WF s -> s_kind s <> KBcdd /\ s_kind s <> KZbdd ->
   forall r1 r2, ref_ok s r1 -> ref_ok s r2 ->
   (r1 = r2 <->
-   forall c, choice_ok s c -> semk s (S (nlevels s)) r1 c = semk s (S (nlevels s)) r2 c).
+   forall c, (forall l, c l < arity (s_kind s)) ->
+     semk s (S (nlevels s)) r1 c = semk s (S (nlevels s)) r2 c).
 Proof. exact canon_kary. Qed.
 Print Assumptions C01_canon_kary.
 
-Theorem C01_canon_kary_handles : forall s, WF s -> kary (s_kind s) ->
+Theorem C01_canon_kary_handles : forall s, WF s -> s_kind s <> KBcdd /\ s_kind s <> KZbdd ->
   forall h1 h2, In h1 (s_handles s) -> In h2 (s_handles s) ->
   (snd h1 = snd h2 <->
-   forall c, choice_ok s c -> sem_edge s (snd h1) c = sem_edge s (snd h2) c).
+   forall c, (forall l, c l < arity (s_kind s)) ->
+     sem_edge s (snd h1) c = sem_edge s (snd h2) c).
 Proof. exact canon_kary_handles. Qed.
 Print Assumptions C01_canon_kary_handles.
+
+(* BCDD: edges (reference and complement tag) with equal meaning are equal *)
+Theorem C01_canon_bcdd : forall s, WF s -> s_kind s = KBcdd -> terms_kind s ->
+  forall e1 e2, ref_ok s (eref e1) -> ref_ok s (eref e2) ->
+  (e1 = e2 <->
+   forall c, (forall l, c l < arity (s_kind s)) ->
+     semc s (S (nlevels s)) e1 c = semc s (S (nlevels s)) e2 c).
+Proof. exact canon_bcdd. Qed.
+Print Assumptions C01_canon_bcdd.
+
+Theorem C01_canon_bcdd_handles : forall s, WF s -> s_kind s = KBcdd -> terms_kind s ->
+  forall h1 h2, In h1 (s_handles s) -> In h2 (s_handles s) ->
+  (snd h1 = snd h2 <->
+   forall c, (forall l, c l < arity (s_kind s)) ->
+     sem_edge s (snd h1) c = sem_edge s (snd h2) c).
+Proof. exact canon_bcdd_handles. Qed.
+Print Assumptions C01_canon_bcdd_handles.
+
+(* ZBDD: references with equal Boolean view over all levels are equal *)
+Theorem C01_canon_zbdd : forall s, WF s -> s_kind s = KZbdd -> terms_kind s ->
+  forall r1 r2, ref_ok s r1 -> ref_ok s r2 ->
+  (r1 = r2 <->
+   forall c, (forall l, c l < arity (s_kind s)) ->
+     semz s (S (nlevels s)) 0 r1 c = semz s (S (nlevels s)) 0 r2 c).
+Proof. exact canon_zbdd. Qed.
+Print Assumptions C01_canon_zbdd.
+
+(* ZBDD, generalised to the view from any common level *)
+Theorem C01_canon_zbdd_from : forall s, WF s -> s_kind s = KZbdd -> terms_kind s ->
+  forall lvl r1 r2, ref_ok s r1 -> ref_ok s r2 ->
+  lvl <= rlevel s r1 -> lvl <= rlevel s r2 ->
+  (r1 = r2 <->
+   forall c, (forall l, c l < arity (s_kind s)) ->
+     semz s (S (nlevels s)) lvl r1 c = semz s (S (nlevels s)) lvl r2 c).
+Proof. exact canon_zbdd_from. Qed.
+Print Assumptions C01_canon_zbdd_from.
+
+Theorem C01_canon_zbdd_handles : forall s, WF s -> s_kind s = KZbdd -> terms_kind s ->
+  forall h1 h2, In h1 (s_handles s) -> In h2 (s_handles s) ->
+  (snd h1 = snd h2 <->
+   forall c, (forall l, c l < arity (s_kind s)) ->
+     sem_edge s (snd h1) c = sem_edge s (snd h2) c).
+Proof. exact canon_zbdd_handles. Qed.
+Print Assumptions C01_canon_zbdd_handles.
